@@ -64,8 +64,19 @@ def payload(n):
 def run_e2e(c):
     NOW[0] = c["now"]
     d = tempfile.mkdtemp(prefix="verif-c18-")
+    cwd0 = os.getcwd()
     try:
-        mem = joblib.Memory(d, verbose=0)
+        # where the cache lives: a plain absolute directory, one below a component that looks like an entry id (an md5 /
+        # uuid keyed parent directory), or a RELATIVE path (plain, or with a sub-directory)
+        how = c.get("loc", "abs")
+        if how == "hex":
+            loc = os.path.join(d, "0123456789abcdef0123456789abcdef", "cache")
+        elif how in ("rel", "relsub"):
+            os.chdir(d)
+            loc = "cachedir" if how == "rel" else os.path.join(".", "sub", "cachedir")
+        else:
+            loc = d
+        mem = joblib.Memory(loc, verbose=0)
         calls = []
 
         def f(arg, n):
@@ -149,6 +160,7 @@ def run_e2e(c):
         return {"ok": True, "items": seen, "fs_items": fs_items, "survivors": sorted(survivors), "dirs_left": dirs_left,
                 "values_ok": values_ok, "recomputed": recomputed}
     finally:
+        os.chdir(cwd0)
         shutil.rmtree(d, ignore_errors=True)
 
 
